@@ -1,1 +1,234 @@
-(* placeholder *)
+(* C04 "Only opted-in data ever leaves a peer".
+
+   What a peer ORIGINATES in one frame (all states, all schedule orders, all oracles):
+   - a component update only for a type registered with sync_component on that peer
+     (p_sync_types; SkinnedMesh travels as T_MAPPER and needs T_SKIN registered), about a uuid the
+     sync machinery of that peer knows, detected on an entity that carries SyncEntity{uuid} and
+     no SyncExclude<T> in the very state in which the detector ran;
+   - an asset update only if the class of the asset is enabled on that peer;
+   - entity messages only about uuids of marked / synchronised / tracked entities.
+   Messages a host merely relays (relay_except in server_received, CRelay, CApplyComp (Some _),
+   CSetParentSrv, CApplyMaterial (Some _)) are copies of received messages: `relayed`.
+
+   The walk through the model is in OptInLemmas.v (a generic frame invariant); this file
+   instantiates it three times (trivially: configuration is constant; lightly: assets, entity
+   messages; fully: component types) and lifts the result to all traces of the global system. *)
+From stdpp Require Import gmap list.
+From Coq Require Import NArith Lia.
+From RecordUpdate Require Import RecordSet.
+From BS Require Import Sync.Types Sync.Model Sync.Observe Sync.Proofs.OptInLemmas.
+Import RecordSetNotations.
+Local Open Scope N_scope.
+
+(* ---------- vocabulary --------------------------------------------------------------------- *)
+
+(* m was received by pr and not yet (completely) handled: it sits in an inbox, or in a deferred
+   command that will re-send it to the other clients *)
+Definition relayed (pr : peer_state) (m : msg) : Prop :=
+  (exists from l, n_inbox pr !! from = Some l /\ In m l) \/
+  (exists k cs c, p_cmdq pr !! k = Some cs /\ In c cs /\ cmd_relays c m).
+
+(* u is the uuid of something the sync machinery of pr already deals with: a tracked uuid, the
+   SyncEntity of an entity, a marked entity (whose uuid will be its id), a queued change, an
+   announced spawn *)
+Definition known (pr : peer_state) (u : uuid) : Prop :=
+  (exists e, t_u2e pr !! u = Some e) \/
+  (exists e, t_e2u pr !! e = Some u) \/
+  (exists e en, p_ents pr !! e = Some en /\ en_sync en = Some u) \/
+  (exists en, p_ents pr !! u = Some en /\ en_mark en <> None) \/
+  (exists t v, In (u, t, v) (t_queue pr)) \/
+  relayed pr (MSpawn u) \/
+  (exists k cs e, p_cmdq pr !! k = Some cs /\ (In (CSpawnSync e u) cs \/ In (CInsertSync e u) cs)).
+
+Definition marked (pr : peer_state) (e : ent) : Prop :=
+  exists en, p_ents pr !! e = Some en /\ en_mark en <> None.
+Definition key_ok (pr : peer_state) (e : ent) : Prop :=
+  is_Some (t_e2u pr !! e) \/ marked pr e \/ p_next_ent pr <= e.
+
+(* the wire type t is opted in on pr *)
+Definition wire_opted (pr : peer_state) (t : tyid) : Prop :=
+  In t (p_sync_types pr) \/ (t = T_MAPPER /\ In T_SKIN (p_sync_types pr)).
+
+Definition queue_ok (pr : peer_state) : Prop :=
+  forall u t v, In (u, t, v) (t_queue pr) -> wire_opted pr t /\ not_skin v.
+
+(* A detector system exists only for registered types: sync_component::<T>() is what adds
+   sync_detect::<T> to the schedule.  The harness reads p_order from the real schedule, so this
+   hypothesis is discharged by the schedule audit; it is preserved by every application
+   operation except OSetOrder (app_step_order_ok below). *)
+Definition order_ok (pr : peer_state) : Prop :=
+  forall t, In (SDetect t) (p_order pr) -> In t (p_sync_types pr).
+
+Definition is_app_cmd (c : cmd) : Prop :=
+  match c with CAppDespawnUuid _ | CAppDespawn _ | CAppInsert _ _ _ => True | _ => False end.
+Definition app_cmds_ok (pr : peer_state) : Prop :=
+  forall n c, In (n, c) (p_app_cmds pr) -> is_app_cmd c.
+
+(* values are untyped in the model; in Rust a SkinnedMesh value can only sit in the SkinnedMesh
+   component.  `typed_state` says so for everything pr holds. *)
+Definition cmd_typed (c : cmd) : Prop :=
+  match c with
+  | CApplyComp _ _ _ t v | CAppInsert _ t v | CRelay _ (MComp _ t v) => val_typed t v
+  | _ => True
+  end.
+Record typed_state (pr : peer_state) : Prop := {
+  ts_ents : forall e en t c, p_ents pr !! e = Some en -> en_comps en !! t = Some c -> val_typed t (c_val c);
+  ts_inbox : forall from l u t v, n_inbox pr !! from = Some l -> In (MComp u t v) l -> val_typed t v;
+  ts_cmdq : forall k cs c, p_cmdq pr !! k = Some cs -> In c cs -> cmd_typed c;
+  ts_app : forall n c, In (n, c) (p_app_cmds pr) -> cmd_typed c;
+}.
+
+(* x was queued by the detector of a registered type t, at the point of the schedule where that
+   detector ran, from an entity carrying SyncEntity{uuid = x.1.1}, the component, and no
+   SyncExclude<t> in that state *)
+Definition detected_in (pr : peer_state) (o : frame_oracle) (x : uuid * tyid * value) : Prop :=
+  exists pre t post, p_order pr = pre ++ SDetect t :: post /\
+    detect_witness (frame_mid pr o pre) t x /\ In t (p_sync_types pr) /\
+    (x.1.2 = t \/ (x.1.2 = T_MAPPER /\ t = T_SKIN)).
+
+Definition opted (pr : peer_state) (x : uuid * tyid * value) : Prop :=
+  known pr x.1.1 /\ wire_opted pr x.1.2 /\ not_skin x.2.
+
+Definition Qf (pr : peer_state) (o : frame_oracle) (x : uuid * tyid * value) : Prop :=
+  opted pr x /\ (In x (t_queue pr) \/ detected_in pr o x).
+
+(* ---------- the three instances of the invariant ---------------------------------------------- *)
+
+Definition TInv (pr : peer_state) : peer_state -> Prop :=
+  Inv (p_sync_types pr) (t_mat pr) (t_mesh pr) (t_audio pr) (p_id pr) (p_order pr)
+      (fun _ => True) (fun _ => True) (fun _ => True) (fun _ => True) 0 (fun _ => True)
+      (fun _ _ => True) True (fun _ => True).
+
+Definition LInv (pr : peer_state) : peer_state -> Prop :=
+  Inv (p_sync_types pr) (t_mat pr) (t_mesh pr) (t_audio pr) (p_id pr) (p_order pr)
+      (relayed pr) (known pr) (marked pr) (key_ok pr) (p_next_ent pr) (fun x => known pr x.1.1)
+      (fun _ _ => True) True is_app_cmd.
+
+Definition FInv (pr : peer_state) (o : frame_oracle) : peer_state -> Prop :=
+  Inv (p_sync_types pr) (t_mat pr) (t_mesh pr) (t_audio pr) (p_id pr) (p_order pr)
+      (relayed pr) (known pr) (marked pr) (key_ok pr) (p_next_ent pr) (Qf pr o)
+      val_typed (In T_SKIN (p_sync_types pr)) (fun c => is_app_cmd c /\ cmd_typed c).
+
+Lemma relayed_typed pr u t v : typed_state pr -> relayed pr (MComp u t v) -> val_typed t v.
+Proof.
+  intros Ht [(from & l & Hl & Hin)|(k & cs & c & Hl & Hin & Hr)].
+  - eapply ts_inbox; eassumption.
+  - pose proof (ts_cmdq pr Ht _ _ _ Hl Hin) as Hc.
+    destruct c; simpl in Hr; try contradiction.
+    + destruct from; [|contradiction]. injection Hr as <- <- <-. exact Hc.
+    + discriminate.
+    + destruct from; [discriminate|contradiction].
+    + subst m. exact Hc.
+Qed.
+
+Lemma pending_cmd_ok pr (vt : tyid -> value -> Prop) k cs c :
+  p_cmdq pr !! k = Some cs -> In c cs ->
+  (forall e u t v from, c = CApplyComp from e u t v -> vt t v) ->
+  (forall e t v, c = CAppInsert e t v -> vt t v) ->
+  cmd_ok (relayed pr) (known pr) vt c.
+Proof.
+  intros Hl Hin H1 H2.
+  assert (Hrel : forall m, cmd_relays c m -> relayed pr m).
+  { intros m Hm. right. exists k, cs, c. repeat split; assumption. }
+  destruct c; simpl; try exact I.
+  - do 6 right. exists k, cs, e. split; [exact Hl|left; exact Hin].
+  - do 6 right. exists k, cs, e. split; [exact Hl|right; exact Hin].
+  - split; [|eapply H1; reflexivity]. intros Hf. apply Hrel. destruct from; [reflexivity|congruence].
+  - apply Hrel. reflexivity.
+  - intros Hf. apply Hrel. destruct from; [reflexivity|congruence].
+  - apply Hrel. reflexivity.
+  - eapply H2. reflexivity.
+Qed.
+
+Lemma app_cmd_ok_any (inb : msg -> Prop) (kn : uuid -> Prop) (vt : tyid -> value -> Prop) c :
+  is_app_cmd c -> (forall e t v, c = CAppInsert e t v -> vt t v) -> cmd_ok inb kn vt c.
+Proof. intros Ha Hv. destruct c; simpl in *; try contradiction; try exact I. eapply Hv. reflexivity. Qed.
+
+Lemma TInv_frame pr o : p_panic pr = None -> TInv pr (frame pr o).
+Proof.
+  intros Hp. unfold TInv. apply Inv_frame; try (intros; exact I); try exact Hp.
+  - intros c _. destruct c; simpl; try exact I; tauto.
+  - constructor; try reflexivity; try (intros; exact I); try (intros; repeat split; exact I).
+    + intros d m [].
+    + intros k cs c _ _. destruct c; simpl; try exact I; tauto.
+    + apply N.le_0_l.
+Qed.
+
+Lemma LInv_start pr : app_cmds_ok pr -> LInv pr (pr <| p_out := [] |>).
+Proof.
+  intros Ha. constructor; try reflexivity.
+  - intros d m [].
+  - intros k cs c Hl Hin. eapply pending_cmd_ok; try eassumption; intros; exact I.
+  - exact Ha.
+  - intros [[u t] v] Hin. do 4 right. left. exists t, v. exact Hin.
+  - intros from l m Hl Hin. left. exists from, l. split; assumption.
+  - intros u e Hl. left. exists e. exact Hl.
+  - intros e u Hl. split; [right; left; exists e; exact Hl|left; exists u; exact Hl].
+  - intros e en Hl. split; [|split].
+    + intros u Hu. do 2 right. left. exists e, en. split; assumption.
+    + intros Hm. exists en. split; assumption.
+    + intros; exact I.
+Qed.
+
+Lemma LInv_frame pr o : p_panic pr = None -> app_cmds_ok pr -> LInv pr (frame pr o).
+Proof.
+  intros Hp Ha. unfold LInv. apply Inv_frame; try (intros; exact I); try exact Hp.
+  - intros u Hu. do 5 right. left. exact Hu.
+  - intros e He. do 3 right. left. exact He.
+  - intros e He. right. left. exact He.
+  - intros e He. right. right. exact He.
+  - intros c Hc. apply app_cmd_ok_any; [exact Hc|intros; exact I].
+  - apply LInv_start. exact Ha.
+  - intros pre t post x _ HI (e & en & c & Hl & Hs & _).
+    destruct (i_ents _ _ _ _ _ _ _ _ _ _ _ _ _ _ _ _ HI _ _ Hl) as (Hk & _). apply Hk. exact Hs.
+Qed.
+
+Lemma FInv_start pr o :
+  queue_ok pr -> typed_state pr -> app_cmds_ok pr -> FInv pr o (pr <| p_out := [] |>).
+Proof.
+  intros Hq Ht Ha. constructor; try reflexivity.
+  - intros d m [].
+  - intros k cs c Hl Hin. pose proof (ts_cmdq pr Ht _ _ _ Hl Hin) as Hc.
+    eapply pending_cmd_ok; try eassumption; intros; subst c; exact Hc.
+  - intros n c Hin. split; [eapply Ha; eassumption|eapply ts_app; eassumption].
+  - intros [[u t] v] Hin. split; [|left; exact Hin]. destruct (Hq _ _ _ Hin) as [Hw Hs].
+    split; [|split; assumption]. do 4 right. left. exists t, v. exact Hin.
+  - intros from l m Hl Hin. left. exists from, l. split; assumption.
+  - intros u e Hl. left. exists e. exact Hl.
+  - intros e u Hl. split; [right; left; exists e; exact Hl|left; exists u; exact Hl].
+  - intros e en Hl. split; [|split].
+    + intros u Hu. do 2 right. left. exists e, en. split; assumption.
+    + intros Hm. exists en. split; assumption.
+    + intros t c Hc. eapply ts_ents; eassumption.
+Qed.
+
+Lemma FInv_frame pr o :
+  p_panic pr = None -> queue_ok pr -> order_ok pr -> typed_state pr -> app_cmds_ok pr ->
+  FInv pr o (frame pr o).
+Proof.
+  intros Hp Hq Ho Ht Ha. unfold FInv. apply Inv_frame; try exact Hp.
+  - intros u Hu. do 5 right. left. exact Hu.
+  - intros u t v Hr. eapply relayed_typed; eassumption.
+  - intros j p. reflexivity.
+  - intros t n. exact I.
+  - intros t j p Hv Hin. simpl in Hv. subst t. exact Hin.
+  - intros e He. do 3 right. left. exact He.
+  - intros e He. right. left. exact He.
+  - intros e He. right. right. exact He.
+  - intros c [Hc Hty]. apply app_cmd_ok_any; [exact Hc|]. intros e t v ->. exact Hty.
+  - apply FInv_start; assumption.
+  - intros pre t post x Hord HI Hw.
+    assert (Hin : In t (p_sync_types pr)).
+    { apply Ho. rewrite Hord. apply in_or_app. right. left. reflexivity. }
+    assert (Hb : opted pr x).
+    { eapply witness_base; [|exact HI|exact Hin|exact Hw].
+      intros t' j p Hv Hin'. simpl in Hv. subst t'. exact Hin'. }
+    split; [exact Hb|]. right. exists pre, t, post. split; [exact Hord|]. split; [exact Hw|].
+    split; [exact Hin|].
+    destruct Hw as (e & en & c & Hl & _ & Hc & _ & Hm).
+    destruct (i_ents _ _ _ _ _ _ _ _ _ _ _ _ _ _ _ _ HI _ _ Hl) as (_ & _ & Hty).
+    specialize (Hty _ _ Hc). destruct (c_val c); destruct Hm as [-> _].
+    + left. reflexivity.
+    + right. split; [reflexivity|exact Hty].
+    + left. reflexivity.
+Qed.
